@@ -3,9 +3,115 @@ import ShelxModel.C03
 open Lean Shelx.J
 
 namespace Shelx.Drv.C03
+open Shelx.C03
+
+/-- `["part", n, sof] | ["afix", mn] | ["resi", cls, num] | ["atom", tag, sfac, sof, [u…]] | ["frag"] | ["fend"] |
+    ["hklf"] | ["end"] | ["other"]` -/
+def lineOf (j : Json) : Except String Line := do
+  let l ← arr j
+  match l with
+  | [] => err "empty line"
+  | k :: args =>
+    let k ← str k
+    match k, args with
+    | "part", [n, f] => return .part (← int n) (← rat f)
+    | "afix", [mn] => return .afix (← int mn)
+    | "resi", [c, n] => return .resi (← str c) (← int n)
+    | "atom", [t, sf, f, u] => return .atom { tag := ← nat t, sfac := ← int sf, sof := ← rat f, u := ← rats u }
+    | "frag", [] => return .frag
+    | "fend", [] => return .fend
+    | "hklf", [] => return .hklf
+    | "end", [] => return .fin
+    | "other", [] => return .other
+    | _, _ => err s!"bad line {j.compress}"
+
+def obsJson (table : List String) (o : AtomObs) : Json :=
+  Json.mkObj [("tag", ofNat o.tag), ("sfac", ofInt o.sfac), ("sof", ofRat o.sof), ("u", ofRats o.uvals),
+    ("part", ofInt o.part), ("afix", ofInt o.afix), ("rnum", ofInt o.resiNum), ("rcls", Json.str o.resiCls),
+    ("q", Json.bool o.qpeak), ("el", Json.str (sfac2elem table o.sfac)),
+    ("el_spec", match specElement table o.sfac with | some e => Json.str e | none => Json.null)]
+
+def optObs (table : List String) : Option AtomObs → Json
+  | some o => obsJson table o
+  | none => Json.null
+
+def tags (l : List ViewAtom) : Json := Json.arr (l.map fun a => ofNat a.obs.tag).toArray
+
+def viewsJson (table : List String) (classes : List String) (atoms : List AtomObs) : Json :=
+  let va := viewAtoms table atoms
+  Json.mkObj [("hydrogens", tags (View.hydrogenAtoms va)), ("qpeaks", tags (View.qPeaks va)),
+    ("riding", tags (View.ridingAtoms va)), ("residues", ofInts (View.residues va)),
+    ("n_aniso", ofNat (View.nAniso va)), ("n_iso", ofNat (View.nIso va)),
+    ("n_aniso_spec", ofNat (View.specNAniso va)), ("n_iso_spec", ofNat (View.specNIso va)),
+    ("in_class", Json.arr (classes.map fun c => Json.arr ((View.atomsInClass va c).map ofNat).toArray).toArray)]
+
+def rtokOf (s : String) : Except String RTok :=
+  if s.any Char.isAlpha then
+    if s.contains ':' then
+      match s.splitOn ":" with
+      | c :: n :: _ => match n.toInt? with
+        | some i => .ok (.chainNum c i)
+        | none => err s!"bad chain token {s}"
+      | _ => err s!"bad chain token {s}"
+    else .ok (.word s)
+  else match s.toInt? with
+    | some i => .ok (.num i)
+    | none => err s!"bad numeric token {s}"
+
+def optInt : Option Int → Json | some i => ofInt i | none => Json.null
+def optStr : Option String → Json | some s => Json.str s | none => Json.null
+
+def resiJson (d : ResiDef) : Json :=
+  Json.mkObj [("cls", Json.str d.cls), ("num", ofInt d.num), ("alias", optInt d.alias), ("chain", optStr d.chain)]
+
+def itemOf (j : Json) : Except String Item := do
+  match ← arr j with
+  | [k, v] =>
+    match ← str k with
+    | "l" => return .line (← nat v)
+    | "i" => return .inc (← str v)
+    | _ => err "bad item"
+  | _ => err "bad item"
+
+def itemJson : Item → Json
+  | .line t => Json.arr #[Json.str "l", ofNat t]
+  | .inc n => Json.arr #[Json.str "i", Json.str n]
+
+def itemsJson (l : List Item) : Json := Json.arr (l.map itemJson).toArray
 
 def handle (j : Json) : Except String Json := do
   let op ← strField j "op"
-  err s!"C03: unknown op {op}"
+  match op with
+  | "file" =>
+    let lines ← (← arrField j "lines").mapM lineOf
+    let table ← field j "sfac" >>= strs
+    let classes ← field j "classes" >>= strs
+    let m := observe (run lines)
+    let b := observe (runBug lines)
+    let sp := specAtoms lines
+    let mOk := m.filterMap id
+    return Json.mkObj [("valid", Json.bool (valid lines)),
+      ("model", Json.arr (m.map (optObs table)).toArray),
+      ("spec", Json.arr (sp.map (obsJson table)).toArray),
+      ("before_fix", Json.arr (b.map (optObs table)).toArray),
+      ("model_views", viewsJson table classes mOk),
+      ("spec_views", viewsJson table classes sp)]
+  | "resi" =>
+    let toks ← (← field j "toks" >>= strs).mapM rtokOf
+    return Json.mkObj [("model", resiJson (resiDecode toks)), ("spec", resiJson (resiSpec toks)),
+      ("form_ok", Json.bool (resiFormOK toks))]
+  | "splice" =>
+    let main ← (← arrField j "main").mapM itemOf
+    let fsj ← arrField j "fs"
+    let fs : FS ← fsj.mapM fun e => do
+      let n ← strField e "name"
+      let c ← (← arrField e "items").mapM itemOf
+      return (n, c)
+    let total := main.length + (fs.map (·.2.length)).sum + fs.length + 1
+    let m := splice fs total [] main
+    return Json.mkObj [("model", match m with | some l => itemsJson l | none => Json.null),
+      ("spec", itemsJson (spliceSpec fs (fs.length + 1) main)),
+      ("in_domain", Json.bool (deepOK fs (fs.length + 1) main && decide (incNames (spliceSpec fs (fs.length + 1) main)).Nodup))]
+  | _ => err s!"C03: unknown op {op}"
 
 end Shelx.Drv.C03
